@@ -260,7 +260,7 @@ def frame_cases(draw, tier, manager):
     }
     if manager:
         cfg["uuids"] = None
-        if gt and draw(st.integers(0, 3)) == 0:
+        if gt and draw(st.integers(0, 2)) == 0:
             cfg["uuids"] = draw(st.lists(st.sampled_from([g["uuid"] for g in gt] + ["zz"]), min_size=1, max_size=4, unique=True))
         cfg["explicit"] = draw(st.booleans())
         cfg["fthr"] = draw(st.one_of(st.none(), st.integers(0, 6)))
@@ -273,6 +273,18 @@ def frame_cases(draw, tier, manager):
             areas.append(draw(prisms(centre=[g["p"][0] + draw(fl(-r / 2, r / 2)), g["p"][1] + draw(fl(-r / 2, r / 2))], radius=r)))
         else:
             areas.append(draw(prisms()))
+    if manager and cfg.get("uuids"):
+        # by construction: a non-detection area around an annotated object that is NOT a target, with rows inside its box
+        # (its box must still be cut out of the non-detection cloud)
+        excluded = [g for g in gt if g["uuid"] not in cfg["uuids"]]
+        if excluded and draw(st.booleans()):
+            g = excluded[draw(st.integers(0, len(excluded) - 1))]
+            g["fill"] = max(g["fill"], 3)
+            area = draw(prisms(centre=[g["p"][0], g["p"][1]], radius=draw(fl(3.0, 12.0))))
+            if areas:
+                areas[0] = area
+            else:
+                areas.append(area)
     npts = 25 if tier == "quick" else 50
     pts = []
     if gt:
